@@ -149,13 +149,13 @@ def closure : Nat → List Cand → List Cand
 def Cand.quiescent (c : Cand) : Bool := c.succ.isEmpty
 
 def feedOp (cs : List Cand) (o : Op) : List Cand :=
-  let all := closure 4 cs
+  let all := closure 8 cs
   -- virtual time passes only when no internal step is due (the loops run everything that is ready first)
   let base := match o with | .tick (_ + 1) => all.filter Cand.quiescent | _ => all
   (dedup (base.filterMap (fun c => (step c.st o).map (fun s' => { c with st := s' })))).take LIMIT
 
 def feedOut (cs : List Cand) (o : Json) : List Cand :=
-  (dedup ((closure 4 cs).filterMap (fun c => c.take o))).take LIMIT
+  (dedup ((closure 8 cs).filterMap (fun c => c.take o))).take LIMIT
 
 def instJson (x : Inst) : Json :=
   Json.mkObj [("kind", (match x.kind with | .http => "http" | .ws => "ws")), ("hasApp", x.hasApp), ("closed", x.closed),
@@ -203,7 +203,7 @@ def accept : Handler := fun j => do
   | some r => pure (Json.mkObj [("accepted", false), ("rejected", r)])
   | none =>
     -- the observation is over: everything the model produced must have been observed (after the internal steps that are due)
-    let fin := (closure 4 cs).filter (fun c => c.pending.isEmpty)
+    let fin := (closure 8 cs).filter (fun c => c.pending.isEmpty)
     match fin.reverse.head? with
     | some c => pure (Json.mkObj [("accepted", true), ("final", projJson c.st), ("candidates", toJson cs.length),
         -- every model run consistent with the whole observation (schedules the labels do not distinguish)
